@@ -12,6 +12,7 @@ cell; stale cells past a rewound end re-appear).
 -/
 import ImmuModel.Store.Proofs.CrashInv
 import ImmuModel.Store.Proofs.CrashValues
+import ImmuModel.Store.RecoverUnlocked
 
 namespace ImmuModel.Props.C03
 open ImmuModel.Store.Crash
@@ -147,6 +148,28 @@ theorem early_ack_loses_acked :
 example : ∃ s, run .code {} [.valAppend, .txAppend 7, .syncBegin, .syncTx, .clSetOffset, .clAppend, .clSync, .ack,
     .valAppend, .txAppend 8, .syncBegin, .syncTx, .clSetOffset, .clAppend] = some s ∧ s.acked = 1 ∧
     (recover (crashImage s {})).toOption.map (fun r => (r.committed, r.pre)) = some (1, 2) := ⟨_, rfl, by decide, by decide⟩
+
+/-- tx 1 precommitted; `sync()` fsyncs the value log; a second committer appends its value and its tx record (tx 2) before
+`sync()` goes on; `sync()` fsyncs the tx log, writes and fsyncs the commit-log entries of BOTH txs and acknowledges them -/
+def unlockedTrace : List Step :=
+  [.valAppend, .txAppend 7, .syncBegin, .valAppend, .txAppend 8, .syncTx, .clSetOffset, .clAppend, .clSync, .ack]
+
+/-- **The value-log fsync must be inside the commit lock**: when a tx record can be appended between the value-log fsync and
+the tx-log fsync of one `sync()` (`stepUnlocked`, seeded change c03-b), tx 2 is acknowledged, every crash image recovers it
+as committed, and its value cell is in no crash image that lost the un-fsynced writes (harness:
+`C03:ordering:acked-tx-values-not-durable`, `C03:recovery:acked-tx-lost`). -/
+theorem unlocked_vlog_sync_loses_acked_values :
+    ∃ s r x, runUnlocked {} unlockedTrace = some s ∧ s.acked = 2 ∧ recover (crashImage s {}) = .ok r ∧ r.committed = 2 ∧
+      x ∈ s.ackLog ∧ x.id = 2 ∧ (crashImage s {}).vl[x.vpos]? = none := by
+  refine ⟨((runUnlocked {} unlockedTrace).getD {}), _, { id := 2, prevAlh := [(1, 7)], body := 8, vpos := 1 }, rfl, ?_, rfl, ?_, ?_, rfl, ?_⟩
+  · decide
+  · decide
+  · decide
+  · decide
+
+/-- the code's protocol does not admit that interleaving at all (`txAppend` is enabled only outside `sync()`): this is the
+line the correspondence answers with "disabled" -/
+example : run .code {} (unlockedTrace.take 4) ≠ none ∧ run .code {} (unlockedTrace.take 5) = none := by decide
 
 /-! ### DESIGN K7 as a theorem about the code's protocol (a finding, reproduced on the implementation by the harness) -/
 
